@@ -73,19 +73,22 @@ def map_plain(sol, pmap):
 def thl_result(case):
     from superrec2.compute.reconciliation import reconcile_thl
     from superrec2.utils.dynamic_programming import RetentionPolicy
-    B = R.Built(case["S"], case["O"], case["costs"])
+    B = R.primed(case, lambda i: None)          # a plain Built; node names / branch lengths as the case says
     res = reconcile_thl(B.input, RetentionPolicy.ALL)
     sols = [B.canon(o) for o in res]
     return (R.ext_of(min(o.cost() for o in res)) if res else None), sols
 
 
 def labelled_result(case, unordered):
-    from superrec2.compute.super_reconciliation import sreconcile_extended_spfs
-    from superrec2.compute.unordered_super_reconciliation import usreconcile_extended_uspfs
+    from superrec2.compute.super_reconciliation import sreconcile_extended_spfs, sreconcile_base_spfs
+    from superrec2.compute.unordered_super_reconciliation import usreconcile_extended_uspfs, usreconcile_base_uspfs
     from superrec2.utils.dynamic_programming import RetentionPolicy
     import contextlib, io
-    B = R.Built(case["S"], case["O"], case["costs"], labelled=True, unordered=unordered)
-    fn = usreconcile_extended_uspfs if unordered else sreconcile_extended_spfs
+    B = R.primed(case, lambda i: None, labelled=True, unordered=unordered)
+    if case.get("base"):
+        fn = usreconcile_base_uspfs if unordered else sreconcile_base_spfs
+    else:
+        fn = usreconcile_extended_uspfs if unordered else sreconcile_extended_spfs
     with contextlib.redirect_stderr(io.StringIO()):
         res = fn(B.input, RetentionPolicy.ALL)
     return (R.ext_of(min(o.cost() for o in res)) if res else None), len(res)
@@ -110,7 +113,7 @@ def outgroup(case):
         if isinstance(o, dict):
             return {"sp": "0" + o["sp"], "syn": list(o["syn"])}
         return [go(o[0]), go(o[1])]
-    return {"S": S2, "O": go(case["O"]), "costs": case["costs"]}
+    return dict(case, S=S2, O=go(case["O"]))
 
 
 def num(v):
@@ -193,7 +196,8 @@ def _meta_case(args):
             fail({"orig": case}, f"reconcile_thl: minimum {v0} with {len(s0)} optimal solutions; the specification gives {m} with {len(opt)}", {"orig": [v0, s0]})
         # children reordered in both trees (node names do not exist in this encoding; families renamed below)
         S2, pmap = swap_species(case["S"], rng)
-        t = {"S": S2, "O": swap_object(case["O"], rng, pmap, {}), "costs": case["costs"]}
+        t = {"S": S2, "O": swap_object(case["O"], rng, pmap, {}), "costs": case["costs"],
+             "names": rng.randrange(1 << 30), "dist": rng.randrange(1 << 30)}        # nodes renamed, branch lengths added
         v1, s1 = thl_result(t)
         c1 = sorted((canon_plain(x) for x in s1), key=json.dumps)
         c0m = sorted((canon_plain(map_plain(x, pmap)) for x in s0), key=json.dumps)
@@ -244,12 +248,14 @@ def _meta_case(args):
                 lc = (c03.rand_case(rng, 6, 4, 4, chain=0.5, clade=0.8) if unordered else dict(c02.rand_case(rng, 5, 3, 3, p_incons=0, p_pres=0)))
                 lc.pop("pres", None)
                 lc.pop("prime", None)
+                if rng.random() < 0.4:
+                    lc["base"] = True      # the base variants obey the same laws (on the LCA mapping)
                 v0l, n0 = labelled_result(lc, unordered)
                 S2, pmap = swap_species(lc["S"], rng)
                 fams = sorted({f for _, l in R.otree_leaves(lc["O"]) for f in l["syn"]})
                 perm = fams[:]
                 rng.shuffle(perm)
-                fmap = dict(zip(fams, perm)) if unordered else {f: f for f in fams}
+                fmap = dict(zip(fams, perm))        # families renamed by a bijection, in both models
 
                 def mapo(o):
                     if isinstance(o, dict):
@@ -257,7 +263,8 @@ def _meta_case(args):
                         return {"sp": pmap[o["sp"]], "syn": sorted(syn) if unordered else syn}
                     a, b = mapo(o[0]), mapo(o[1])
                     return [b, a] if rng.random() < 0.5 else [a, b]
-                t = {"S": S2, "O": mapo(lc["O"]), "costs": lc["costs"]}
+                t = {"S": S2, "O": mapo(lc["O"]), "costs": lc["costs"], "names": rng.randrange(1 << 30), "base": lc.get("base", False),
+                     "fnames": rng.choice([0, 1, 2])}
                 v1l, n1 = labelled_result(t, unordered)
                 stats["labelled"] += 1
                 if v0l != v1l or n0 != n1:
